@@ -181,6 +181,9 @@ class C03(PipelineCheck):
     PROBES = ('var_type_removed', 'ret_type_removed', 'type_args_hidden', 'round_without_change',
               'timer_fired_in_erasure', 'fault_free_rerun', 'rounds>=2')
     ROUNDS = (1, 1, 2, 3)
+    # half of the runs target Kotlin: the inference obligation that is CERTAIN (no compiler can
+    # infer an omitted type argument that nothing constrains) is judged for Kotlin only
+    LANGS = ('kotlin', 'kotlin', 'kotlin', 'java', 'groovy', 'scala')
     MAX_DEPTH = (1, 6)
     TRANSLATE = True
     tiers = {'quick': {'runs': 600, 'wall_s': 70, 'run_timeout_s': 300},
